@@ -826,6 +826,18 @@ fn bytes_case(line: &str) -> String {
     // the adapter under test
     let (mut a1, off1) = arena16(seed, size);
     let fvs = unsafe { FileVolatileSlice::from_raw_ptr(a1.as_mut_ptr().add(off1 + MARGIN), size) };
+    if method == "offset" {
+        // not a Bytes method: FileVolatileSlice::offset(count) must be the view [count, size)
+        let r = match fvs.offset(count) {
+            Ok(s2) => format!("[\"ok\",{},\"{}\"]", s2.len(), hex(&((s2.as_ptr() as usize - fvs.as_ptr() as usize) as u64).to_le_bytes())),
+            Err(fuse_backend_rs::file_buf::Error::OutOfBounds { .. }) => er("oob"),
+            Err(_) => er("overflow"),
+        };
+        let vs = fvs.as_volatile_slice();
+        let same = vs.len() == fvs.len() && vs.ptr_guard().as_ptr() as usize == fvs.as_ptr() as usize && fvs.is_empty() == (size == 0);
+        let r = if same { r } else { er("view-mismatch") };
+        return format!("{{\"res\":{},\"mem\":[{}],\"ref_res\":{},\"ref_mem\":[]}}", r, arena_diffs(seed, &a1, off1, size), r);
+    }
     let (r1, _) = bytes_call(&fvs, method, addr, count, &buf);
     // the reference: vm-memory's VolatileSlice over an identical arena
     let (mut a2, off2) = arena16(seed, size);
